@@ -102,7 +102,7 @@ pub fn gen_truth(r: &mut Rng) -> Truth {
     let files: Vec<(String, i64)> = if single {
         vec![("NAME".to_string(), len(r))]
     } else {
-        (0..r.range(1, 5)).map(|i| (format!("d{}/f{} ü.bin", i % 2, i), len(r))).collect()
+        (0..r.range(1, 5)).map(|i| (match r.below(6) { 0 => format!("d{}/a\\b{}.bin", i % 2, i), 1 => format!("w\\x/f{}", i), 2 => format!("d{}/f{};%41 \t.bin", i % 2, i), _ => format!("d{}/f{} ü.bin", i % 2, i) }, len(r))).collect()
     };
     let n = r.range(0, 6) as usize;
     Truth {
@@ -333,6 +333,32 @@ pub fn run(ctx: &Ctx) -> Report {
         }
         let _ = std::fs::remove_file(&tfile);
         let _ = std::fs::remove_dir_all(&src_dir);
+    }
+    // a file whose name is not valid UTF-8: either refused, or the created torrent names it byte for byte
+    if ctx.want("create") && ctx.shard == 0 {
+        use std::os::unix::ffi::OsStrExt;
+        for raw in [&b"caf\xE9.bin"[..], &b"\xff\xfe"[..], &b"ok-\x80-tail.dat"[..]] {
+            let src_dir = ctx.scratch.join("src-nonutf8");
+            let _ = std::fs::remove_dir_all(&src_dir);
+            std::fs::create_dir_all(&src_dir).unwrap();
+            let path = src_dir.join(std::ffi::OsStr::from_bytes(raw));
+            if std::fs::write(&path, b"0123456789").is_err() { rep.inconclusive("file system refuses non-UTF-8 names"); continue; }
+            let before: std::collections::BTreeSet<PathBuf> = std::fs::read_dir(&ctx.scratch).map(|d| d.flatten().map(|e| e.path()).collect()).unwrap_or_default();
+            rep.evaluations += 1;
+            let res = catch(|| Metainfo::create_file(&path, &"http://127.0.0.1:8000/announce".to_string()));
+            let after: Vec<PathBuf> = std::fs::read_dir(&ctx.scratch).map(|d| d.flatten().map(|e| e.path()).filter(|p| !before.contains(p) && p.extension().map(|x| x == "torrent").unwrap_or(false)).collect()).unwrap_or_default();
+            match res {
+                Err(p) => rep.violation(&format!("C17:panic-create:{}", panic_site(&p)), p, json!({"file_name": show(raw)})),
+                Ok(Err(_)) => rep.count("create_refused_non_utf8_name", 1),
+                Ok(Ok(())) => {
+                    let named_ok = after.iter().any(|t| match catch(|| Metainfo::from_file(t)) { Ok(Ok(m)) => m.file_piece_ranges().get(0).map(|r| r.0.as_os_str().as_bytes() == raw).unwrap_or(false), _ => false });
+                    if named_ok { rep.count("create_roundtrips", 1); }
+                    else { rep.violation("C17:create-roundtrip", format!("file name {} is not valid UTF-8; the created torrent does not name it byte for byte", show(raw)), json!({"file_name": show(raw)})); }
+                }
+            }
+            for t in after { let _ = std::fs::remove_file(t); }
+            let _ = std::fs::remove_dir_all(&src_dir);
+        }
     }
     let _ = std::env::set_current_dir("/");
     rep
